@@ -1,4 +1,15 @@
-"""Turn the pending obligations of Engine.verify into solver queries and core.Obligation records."""
+"""Turn the pending obligations of Engine.verify into solver queries and core.Obligation records.
+
+Two phases so that everything parallelises: `prepare` (symbolic execution of one function + SMT-LIB text of each query; one
+worker process per function) and `solve` (all queries of all functions in one solver pool, under a wall budget), then
+`finish` groups the answers per contract clause.
+
+Each pending obligation is split into its top-level goal conjuncts.  A conjunct is first tried against a *slice* of the
+hypotheses (dropping hypotheses is sound for proving): the quantifier-free ones for a quantifier-free goal, or the
+contract's reveal list (named invariant conjuncts) otherwise; what is not proved that way goes to the full query, and only
+the full query can refute.
+"""
+import os
 import time
 
 import z3
@@ -16,8 +27,8 @@ def _conjuncts(e):
     return [e]
 
 
-def _has_quant(e, _seen=None):
-    seen = set() if _seen is None else _seen
+def _has_quant(e):
+    seen = set()
     todo = [e]
     while todo:
         x = todo.pop()
@@ -30,99 +41,110 @@ def _has_quant(e, _seen=None):
     return False
 
 
-def discharge(ded, eng, qualname, clause_of=None, tier='quick', variant=None, label=None, timeout=None, only=None):
-    """verify one function; append named obligations to `ded`.
-    Obligation names are `<function>[<variant>]: <contract clause>` (one per clause, all paths together), so they
-    are stable under edits that add or remove branches.
-    returns dict(status, refuted=[(Obligation, model, trace)])"""
+def _reveal_for(reveal, label):
+    for key, allowed in reveal.items():
+        if label.endswith(key):
+            return set(allowed)
+    return None
+
+
+def prepare(eng, qualname, variant=None, label=None, only=None):
+    """-> picklable dict: function info + list of items (kind, label, trace, inductive, queries=[(sliced|None, full)])"""
     t0 = time.time()
     fname = label or (qualname if variant is None else '%s[%s]' % (qualname, variant))
     res = eng.verify(qualname, variant)
-    relfile = eng.relpath
-    info = dict(file=relfile, source_sha256=res.get('sha', '')[:16], dropped=res.get('dropped', []),
-                status=res['status'])
-    ded.functions[fname] = info
-    for a in sorted(eng.assumptions):
-        ded.assume(a)
-    for t in sorted(eng.trusted):
-        ded.trust(t)
+    info = dict(file=eng.relpath, source_sha256=res.get('sha', '')[:16], dropped=res.get('dropped', []), status=res['status'])
+    out = dict(fname=fname, info=info, sha=res.get('sha', ''), items=[], assumptions=sorted(eng.assumptions),
+               trusted=sorted(eng.trusted), status=res['status'], reason=res.get('reason', ''))
     if res['status'] != 'ok':
         info['reason'] = res.get('reason', '')
-        st = 'inapplicable' if res['status'] == 'inapplicable' else 'unknown'
-        ded.add(Obligation('%s: whole contract' % fname, fname, (clause_of or {}).get('*', 'contract'), 'post', st,
-                           backend='pyvc', sha=res.get('sha', ''), detail='%s: %s' % (res['status'], res.get('reason', ''))))
-        ded.demote(fname, '%s: %s' % (res['status'], res.get('reason', '')))
-        return dict(status=res['status'], refuted=[])
+        return out
     info['paths'] = res.get('paths')
     info['calls_by_contract'] = res.get('called')
     info['inlined'] = res.get('inlined')
     pend = res['obligations']
     if only is not None:
         pend = [p for p in pend if only(p)]
-    timeout = timeout or (20 if tier == 'quick' else 120)
-    # each pending obligation is split into its top-level goal conjuncts; a quantifier-free conjunct is first
-    # tried against the quantifier-free hypotheses only (dropping hypotheses is sound for proving and keeps
-    # nonlinear goals away from the quantified heap invariants); refutations only count on the full query.
-    queries, idx = [], []
-    vac_q, vac_i = [], []
-    for i, p in enumerate(pend):
-        if z3.is_true(p.goal):
-            continue
-        hyps = []
-        for h in p.hyps:
-            hyps.extend(_conjuncts(h))
-        if p.kind in ('cover', 'must-fail'):
-            vac_q.append(smt.to_smt2(hyps, p.goal))
-            vac_i.append(i)
-            continue
-        qf_hyps = [h for h in hyps if not _has_quant(h)]
-        for g in _conjuncts(p.goal):
-            sliced = smt.to_smt2(qf_hyps, g) if (not _has_quant(g) and len(qf_hyps) < len(hyps)) else None
-            queries.append((sliced, smt.to_smt2(hyps, g)))
-            idx.append(i)
-    first = smt.solve_many([q[0] for q in queries if q[0] is not None], timeout_s=min(5, timeout), use_cvc5=False)
-    fi = iter(first)
-    todo, slot = [], []
-    partial = [None] * len(queries)
-    for j, q in enumerate(queries):
-        if q[0] is not None:
-            r = next(fi)
-            if r[0] == 'unsat':
-                partial[j] = (r[0], r[1], r[2], r[3] + '(qf-slice)')
-                continue
-        todo.append(q[1])
-        slot.append(j)
-    for j, r in zip(slot, smt.solve_many(todo, timeout_s=timeout)):
-        partial[j] = r
-    status = {}
-    # vacuity probes are satisfiability questions (expected `sat`); quantified pcs often answer `unknown`, which is
-    # reported as "not shown", never as a failure: short budget, single attempt
-    for i, r in zip(vac_i, smt.solve_many(vac_q, timeout_s=3, use_cvc5='single')):
-        status[i] = r
-    for i, r in zip(idx, partial):
-        cur = status.get(i)
-        if cur is None:
-            status[i] = r
-        else:
-            # combine conjunct results: sat dominates, then unknown, else unsat
-            rank = {'sat': 2, 'unknown': 1, 'unsat': 0}
-            best = r if rank.get(r[0], 1) > rank.get(cur[0], 1) else cur
-            status[i] = (best[0], best[1], cur[2] + r[2], best[3] if best[3] == cur[3] else cur[3] + '+' + r[3])
-    groups = {}
-    order = []
-    for i, p in enumerate(pend):
-        key = (p.kind, p.label)
+    labels = getattr(eng, 'hyp_labels', {})
+    reveal = getattr(eng.contracts.get(qualname), 'reveal', None) or {}
+    for p in pend:
+        item = dict(kind=p.kind, label=p.label, trace=tuple(p.trace)[-8:], inductive=p.inductive, queries=[])
+        if not z3.is_true(p.goal):
+            hyps = []
+            for h in p.hyps:
+                hyps.extend(_conjuncts(h))
+            if p.kind in ('cover', 'must-fail'):
+                item['queries'].append((None, smt.to_smt2(hyps, p.goal)))
+            else:
+                qf_hyps = [h for h in hyps if not _has_quant(h)]
+                allowed = _reveal_for(reveal, p.label)
+                for g in _conjuncts(p.goal):
+                    sliced = smt.to_smt2(qf_hyps, g) if (not _has_quant(g) and len(qf_hyps) < len(hyps)) else None
+                    if sliced is None and allowed is not None:
+                        kept = [h for h in hyps if labels.get(h.get_id()) is None or labels[h.get_id()] in allowed]
+                        if len(kept) < len(hyps):
+                            sliced = smt.to_smt2(kept, g)
+                    item['queries'].append((sliced, smt.to_smt2(hyps, g)))
+        out['items'].append(item)
+    info['prepare_s'] = round(time.time() - t0, 2)
+    return out
+
+
+def solve(preps, timeout, budget_s):
+    """answer every query of every prepared function; -> {(prep index, item index, query index): result}"""
+    deadline = time.time() + budget_s
+    vac, slots = [], []
+    for pi, pr in enumerate(preps):
+        for ii, it in enumerate(pr['items']):
+            for qi, (sliced, full) in enumerate(it['queries']):
+                if it['kind'] in ('cover', 'must-fail'):
+                    vac.append(((pi, ii, qi), full))
+                else:
+                    slots.append((pi, ii, qi, sliced, full))
+    answers = {}
+    # stage 1: slices (short budget, proofs only)
+    s1 = [((pi, ii, qi), sl) for pi, ii, qi, sl, fu in slots if sl is not None]
+    for (k, _), r in zip(s1, smt.solve_many([s for _, s in s1], timeout_s=min(10, timeout), use_cvc5=False, deadline=deadline)):
+        if r[0] == 'unsat':
+            answers[k] = (r[0], r[1], r[2], r[3] + '(slice)')
+    # stage 2: full queries for the rest
+    s2 = [((pi, ii, qi), fu) for pi, ii, qi, sl, fu in slots if (pi, ii, qi) not in answers]
+    for (k, _), r in zip(s2, smt.solve_many([q for _, q in s2], timeout_s=timeout, deadline=deadline)):
+        answers[k] = r
+    # vacuity probes: satisfiability questions, short budget, single attempt, `unknown` is "not shown"
+    for (k, _), r in zip(vac, smt.solve_many([q for _, q in vac], timeout_s=3, use_cvc5='single', deadline=time.time() + 60)):
+        answers[k] = r
+    return answers
+
+
+def finish(ded, pr, pi, answers, clause_of=None):
+    fname, info = pr['fname'], pr['info']
+    ded.functions[fname] = info
+    for a in pr['assumptions']:
+        ded.assume(a)
+    for t in pr['trusted']:
+        ded.trust(t)
+    if pr['status'] != 'ok':
+        st = 'inapplicable' if pr['status'] == 'inapplicable' else 'unknown'
+        ded.add(Obligation('%s: whole contract' % fname, fname, (clause_of or {}).get('*', 'contract'), 'post', st,
+                           backend='pyvc', sha=pr['sha'], detail='%s: %s' % (pr['status'], pr['reason'])))
+        ded.demote(fname, '%s: %s' % (pr['status'], pr['reason']))
+        return []
+    rank = {'sat': 2, 'unknown': 1, 'unsat': 0}
+    groups, order = {}, []
+    for ii, it in enumerate(pr['items']):
+        key = (it['kind'], it['label'])
         if key not in groups:
             groups[key] = []
             order.append(key)
-        groups[key].append(i)
+        groups[key].append(ii)
     refuted = []
     for key in order:
         kind, lab = key
         members = groups[key]
         if kind == 'cover':
             ded.vacuity['covers_total'] += 1
-            r = status.get(members[0])
+            r = answers.get((pi, members[0], 0))
             if r and r[0] == 'sat':
                 ded.vacuity['covers_sat'] += 1
             elif r and r[0] == 'unsat':
@@ -131,104 +153,95 @@ def discharge(ded, eng, qualname, clause_of=None, tier='quick', variant=None, la
                 ded.vacuity['covers_unknown'] = ded.vacuity.get('covers_unknown', 0) + 1
             continue
         if kind == 'must-fail':
-            for i in members:
+            for ii in members:
                 ded.vacuity['must_fail_total'] += 1
-                r = status.get(i)
+                r = answers.get((pi, ii, 0))
                 if r and r[0] == 'sat':
                     ded.vacuity['must_fail_refuted'] += 1
             continue
-        secs = 0.0
-        st = 'proved'
-        backend = set()
-        detail = ''
-        model = None
-        trace = None
-        inductive = False
-        for i in members:
-            p = pend[i]
-            inductive = inductive or p.inductive
-            r = status.get(i)
-            if r is None:      # trivially true after simplification
+        secs, st, backend, detail, model, inductive = 0.0, 'proved', set(), '', None, False
+        for ii in members:
+            it = pr['items'][ii]
+            inductive = inductive or it['inductive']
+            if not it['queries']:
                 backend.add('simplifier')
                 continue
-            secs += r[2]
-            backend.add(r[3])
-            if r[0] == 'unsat':
-                continue
-            if r[0] == 'sat':
-                st = 'refuted'
-                model = r[1]
-                trace = p.trace
-                detail = 'path: %s' % ' / '.join(p.trace[-8:])
+            worst = None
+            for qi in range(len(it['queries'])):
+                r = answers.get((pi, ii, qi)) or ('unknown', 'not answered', 0.0, 'none')
+                secs += r[2]
+                backend.add(r[3])
+                if worst is None or rank.get(r[0], 1) > rank.get(worst[0], 1):
+                    worst = r
+            if worst[0] == 'sat':
+                st, model = 'refuted', worst[1]
+                detail = 'path: %s' % ' / '.join(it['trace'])
                 break
-            if st != 'refuted':
+            if worst[0] != 'unsat' and st != 'refuted':
                 st = 'unknown'
-                detail = 'solver: %s' % (r[1],)
+                detail = 'solver: %s' % (worst[1],)
         clause = (clause_of or {}).get(lab) or (clause_of or {}).get('*') or lab
-        ob = Obligation('%s: %s' % (fname, lab), fname, clause, kind, st, backend='+'.join(sorted(backend)),
-                        seconds=secs, sha=res.get('sha', ''), detail=detail, model=model, inductive=inductive,
-                        path='%d path(s)' % len(members))
+        ob = Obligation('%s: %s' % (fname, lab), fname, clause, kind, st, backend='+'.join(sorted(backend)), seconds=secs,
+                        sha=pr['sha'], detail=detail, model=model, inductive=inductive, path='%d path(s)' % len(members))
         ded.add(ob)
         if st == 'refuted':
-            refuted.append((ob, model, trace))
-    info['wall_s'] = round(time.time() - t0, 2)
-    return dict(status='ok', refuted=refuted)
+            refuted.append(ob)
+    return refuted
+
+
+def discharge(ded, eng, qualname, clause_of=None, tier='quick', variant=None, label=None, timeout=None, only=None,
+              budget_s=None):
+    """verify one function in this process (developer loop / single functions)"""
+    t0 = time.time()
+    pr = prepare(eng, qualname, variant, label, only)
+    timeout = timeout or (20 if tier == 'quick' else 120)
+    answers = solve([pr], timeout, budget_s or (300 if tier == 'quick' else 3000))
+    refuted = finish(ded, pr, 0, answers, clause_of)
+    pr['info']['wall_s'] = round(time.time() - t0, 2)
+    return dict(status=pr['status'], refuted=refuted)
 
 
 # ---------------------------------------------------------------------------------------------------------------------
-# function-level parallelism: one worker process per function under contract (solver queries run serially inside)
-ONLY = {
-    None: None,
-    'guard': lambda p: p.label.startswith('guarded-by') or p.kind == 'cover',
-}
+ONLY = {None: None, 'guard': lambda p: p.label.startswith('guarded-by') or p.kind == 'cover'}
 
 
-def _worker(spec):
+def _prep_worker(spec):
     import importlib
-    import os
     import traceback
-    os.environ['VERIF_SERIAL'] = '1'
-    from lib.core import Deductive
     try:
         m = importlib.import_module(spec['module'])
         eng = m.make_engine(spec['repo'])
-        d = Deductive()
         only = spec.get('only')
         if isinstance(only, str) and only.startswith('fn:'):
             modname, fn = only[3:].split(':')
             only_f = getattr(importlib.import_module(modname), fn)
         else:
             only_f = ONLY[only]
-        discharge(d, eng, spec['q'], clause_of=spec.get('clause_of'), tier=spec.get('tier', 'quick'),
-                  variant=spec.get('variant'), timeout=spec.get('timeout'), only=only_f)
-        return dict(obligations=d.obligations, functions=d.functions, assumptions=d.assumptions, trusted=d.trusted,
-                    demotions=d.demotions, vacuity=d.vacuity, checker_errors=d.checker_errors)
+        return prepare(eng, spec['q'], spec.get('variant'), None, only_f)
     except Exception:
         return dict(error='%s %s: %s' % (spec['q'], spec.get('variant'), traceback.format_exc()[-1200:]))
 
 
-def run_parallel(ded, specs, jobs=None):
+def run_parallel(ded, specs, jobs=None, budget_s=None):
+    """prepare every function in a process pool, then answer all queries together under one wall budget"""
     import multiprocessing as mp
-    import os
     if not specs:
         return
+    tier = specs[0].get('tier', 'quick')
     jobs = jobs or min(len(specs), int(os.environ.get('VERIF_JOBS', '0') or 0) or min(16, os.cpu_count() or 4))
     if jobs <= 1 or os.environ.get('VERIF_SERIAL'):
-        results = [_worker(s) for s in specs]
+        preps = [_prep_worker(s) for s in specs]
     else:
         with mp.get_context('fork').Pool(jobs) as pool:
-            results = pool.map(_worker, specs, chunksize=1)
-    for r in results:
-        if 'error' in r:
-            ded.checker_errors.append(r['error'])
-            continue
-        ded.obligations.extend(r['obligations'])
-        ded.functions.update(r['functions'])
-        for a in r['assumptions']:
-            ded.assume(a)
-        for t in r['trusted']:
-            ded.trust(t)
-        ded.demotions.extend(r['demotions'])
-        for k, v in r['vacuity'].items():
-            ded.vacuity[k] = ded.vacuity.get(k, 0) + v
-        ded.checker_errors.extend(r['checker_errors'])
+            preps = pool.map(_prep_worker, specs, chunksize=1)
+    good = []
+    for s, pr in zip(specs, preps):
+        if 'error' in pr:
+            ded.checker_errors.append(pr['error'])
+        else:
+            good.append((s, pr))
+    timeout = max([s.get('timeout') or (20 if tier == 'quick' else 120) for s in specs])
+    budget = budget_s or (240 if tier == 'quick' else 2400)
+    answers = solve([pr for _, pr in good], timeout, budget)
+    for pi, (s, pr) in enumerate(good):
+        finish(ded, pr, pi, answers, s.get('clause_of'))
